@@ -122,7 +122,8 @@ def run(ctx):
                     # B entries are differences of nearly equal terms, and impl and twin round them differently
                     T = periods_f[j]
                     extra = 0.0 if T == 0 else 2.3e-16 / (6.2831853 / T * dt_f) ** 3
-                    msg, g = cmp_budget([float(x) for x in arr], m, Fraction(1e-9 + 4 * extra), scale=peak, abs_floor=Fraction(1, 10**300))
+                    # (constant raised 4 -> 16 after a thorough-tier false alarm at T/dt ~ 2e4, xi = 0.99: gap 1.9x the old budget)
+                    msg, g = cmp_budget([float(x) for x in arr], m, Fraction(1e-9 + 16 * extra), scale=peak, abs_floor=Fraction(1, 10**300))
                     ctx.gap('response_series/' + name, g)
                     if msg:
                         return f"period[{j}] series {name}: {msg}"
